@@ -184,7 +184,13 @@ type ctxKey struct{}
 // userErr is the identity-carrying error a failing user function returns.
 type userErr struct {
 	exec, kind, id, ord int
+	// wraps: the function gave up on a private timeout / cancellation of its
+	// own and says so (errors.Is(err, context.DeadlineExceeded) etc.), while
+	// the directive's context is perfectly alive
+	wraps error
 }
+
+func (e *userErr) Unwrap() error { return e.wraps }
 
 func (e *userErr) Error() string {
 	return fmt.Sprintf("user function failed (exec %d, %s %d/%d)", e.exec, [...]string{"task", "elem", "end"}[e.kind], e.id, e.ord)
@@ -192,6 +198,12 @@ func (e *userErr) Error() string {
 
 // panicStruct is one of the panic value kinds.
 type panicStruct struct{ Exec, Kind, ID, Ord int }
+
+// panicUncomparable is a struct panic value that cannot be compared with ==.
+type panicUncomparable struct {
+	Why    string
+	Fields map[string]int
+}
 
 // runtimePanic marks executions whose panic is a genuine runtime.Error.
 type runtimePanic struct{}
@@ -222,13 +234,13 @@ type execRun struct {
 	started  bool
 	callSeq  int
 	d        *ExecD
-	prog   *progen.Prog
-	fn     rt.ProgFunc
-	r      *runner
-	token  *int
-	ctx    context.Context
-	cancel context.CancelFunc
-	ctxPub atomic.Bool
+	prog     *progen.Prog
+	fn       rt.ProgFunc
+	r        *runner
+	token    *int
+	ctx      context.Context
+	cancel   context.CancelFunc
+	ctxPub   atomic.Bool
 
 	events  []Ev
 	nev     int
@@ -238,8 +250,8 @@ type execRun struct {
 	nstates int
 	// statesAfterRet: reports received after the directive had returned nil
 	statesAfterRet int
-	inits   [3][64]initRec // TaskInit calls per emitter (name, source line)
-	ninits  [3]int
+	inits          [3][64]initRec // TaskInit calls per emitter (name, source line)
+	ninits         [3]int
 
 	inflight, maxInfl int
 	ctxBad            int
@@ -307,7 +319,13 @@ func (x *execRun) errOf(kind, id, ord int) error {
 			return x.memo[i].e
 		}
 	}
-	e := &userErr{x.idx, kind, id, ord}
+	e := &userErr{exec: x.idx, kind: kind, id: id, ord: ord}
+	switch (x.d.PanicKind + id + 2*ord) % 4 {
+	case 1:
+		e.wraps = context.DeadlineExceeded
+	case 2:
+		e.wraps = context.Canceled
+	}
 	if len(x.memo) < cap(x.memo) {
 		x.memo = append(x.memo, memoEnt{k: k, e: e})
 	}
@@ -325,7 +343,11 @@ func (x *execRun) panicVal(kind, id, ord int) any {
 		}
 	}
 	var v any
-	switch (x.d.PanicKind + id + ord) % 5 {
+	switch (x.d.PanicKind + id + ord) % 7 {
+	case 5:
+		v = []int{x.idx, kind, id, ord} // a value of an uncomparable type
+	case 6:
+		v = panicUncomparable{Why: "validation", Fields: map[string]int{"exec": x.idx, "kind": kind, "id": id, "ord": ord}}
 	case 4:
 		v = runtimePanic{} // marker: the body provokes a real runtime error (write to a nil map)
 	case 0:
@@ -652,8 +674,10 @@ func (e *routeEmitter) ev(ctx context.Context, kind int, name string, err error,
 		r.rec(kind, name, err, pv)
 	}
 }
-func (e *routeEmitter) FlowSuccess(ctx context.Context)          { e.ev(ctx, EmFlowSuccess, "", nil, nil) }
-func (e *routeEmitter) FlowError(ctx context.Context, err error) { e.ev(ctx, EmFlowError, "", err, nil) }
+func (e *routeEmitter) FlowSuccess(ctx context.Context) { e.ev(ctx, EmFlowSuccess, "", nil, nil) }
+func (e *routeEmitter) FlowError(ctx context.Context, err error) {
+	e.ev(ctx, EmFlowError, "", err, nil)
+}
 func (e *routeEmitter) FlowDone(ctx context.Context, _ time.Duration) {
 	e.ev(ctx, EmFlowDone, "", nil, nil)
 }
